@@ -220,6 +220,14 @@ def partitions(tier):
                       params=dict(typ="A", fsci=2, fwi=fwi, tx_size=29, clens=[2, 1], rlens=[1, 2],
                                   wtx=[], budget=0, kinds=kinds,
                                   ats_layouts=["ABC", "BC", "AB", "B", "", "A", "C", "AC"])))
+    # the frame size of the card comes from T0 whatever interface bytes
+    # follow: small FSCI with every ATS layout and a command longer than FSC-3
+    for fsci in (0, 1, 4):
+        P.append(dict(name="A:ats-layout:fsci%d" % fsci, fn="conversation",
+                      params=dict(typ="A", fsci=fsci, fwi=4, tx_size=tags_fsc(fsci) - 3,
+                                  clens=["2m+1", 1], rlens=[1, "1m+1"],
+                                  wtx=[], budget=0, kinds=kinds,
+                                  ats_layouts=["", "A", "B", "C", "ABC"])))
     P.append(dict(name="A:no-retry-budget", fn="conversation",
                   params=dict(typ="A", fsci=2, fwi=14, tx_size=29, clens=["1m+1"], rlens=["1m+1"],
                               wtx=[], budget=1, kinds=kinds)))
